@@ -35,7 +35,8 @@ Verdict(ev, i) ==
   ELSE
     \E qa \in {ParseQueryText(ev.q)} :
     /\ IF ev.ast.k # "none" /\ ~AstAgree(qa, ev.ast) THEN PrintT(<<"ASTDIFF", i>>) ELSE TRUE
-    /\ \E val \in {QueryValue(qa, JudgeEnv)} :
+    /\ \E val \in {IF "fexp" \in DOMAIN ev /\ qa.k = "expr" THEN PowWithObservedExponent(qa.e, ev.fexp, JudgeEnv)
+                    ELSE QueryValue(qa, JudgeEnv)} :
          IF Silent(val) THEN PrintT(<<"SILENT", i>>)
          ELSE IF ev.obs.t = "crash" THEN PrintT(<<"CRASH", i>>)
          ELSE IF ev.obs.t = "def" /\ qa.k = "expr" /\ qa.e.k = "unit" THEN PrintT(<<"SILENT", i>>)
